@@ -26,7 +26,7 @@ Prior == /\ IsEvent("prior")
 CallEv == /\ IsEvent("call")
           /\ call.name = ""
           /\ (E.name = "configure_if_needed" => CinApplicable(prev, E.typ))
-          /\ (E.name = "send_pages" => prev.typ = E.typ /\ \A k \in 1..Len(E.items) : Len(E.items[k]) = TotalBytes(E.w, E.h))
+          /\ (E.name = "send_pages" => prev.typ = E.typ)      \* pages are sent to a sign configured as this type
           /\ call' = [name |-> E.name, typ |-> E.typ, w |-> E.w, h |-> E.h, items |-> E.items]
           /\ UNCHANGED <<flip, prev>>
 
